@@ -429,6 +429,23 @@ def _solve_bounded_master_lp(columns, demands, col_bounds, eps):
     if tab[-1][-1] < -eps:
         return [0.0] * n, [0.0] * m, float("inf")
 
+    # An artificial variable can still be basic at level zero. Pivot it out, otherwise phase 2
+    # (which only prices the real columns) can make it positive again and return a plan that
+    # does not cover the demands.
+    n_real = n + n_surplus + n_slack + n_surplus_bounds
+    for r in range(n_rows):
+        if basis[r] >= n_real:
+            for j in range(n_real):
+                if abs(tab[r][j]) > eps:
+                    piv = tab[r][j]
+                    tab[r] = [v / piv for v in tab[r]]
+                    for i in range(n_rows + 1):
+                        if i != r and abs(tab[i][j]) > eps:
+                            factor = tab[i][j]
+                            tab[i] = [a - factor * b for a, b in zip(tab[i], tab[r])]
+                    basis[r] = j
+                    break
+
     # Phase 2: minimize sum of x
     for j in range(n_vars + 1):
         tab[-1][j] = 0.0
